@@ -39,6 +39,7 @@ func init() {
 			{"C16-R9", "every read path of a join resolves overlapping keys", c16r9},
 			{"C16-R10", "subscribe before taking the snapshot", c16r10},
 			{"C16-R11", "shared dependency markers are never removed", c16r11},
+			{"C16-R12", "every subscriber gets its own copy of a batch", c16r12},
 		},
 	})
 }
@@ -851,5 +852,73 @@ func c16r11(c *Ctx) {
 	c.Check("nothing deletes from the shared extractor registry", pos, nDel == 0,
 		"an entry of indexedDependenciesExtractor is deleted in "+where+": the entry (e.g. the `this collection is also fetched un-indexed` marker) is shared by all inputs of the derived collection and not reference counted, so removing it because ONE input went away makes changedInputKeys trust the reverse index alone and the remaining un-indexed fetchers are never recomputed on secondary changes (derived state stays stale)")
 	c.Check("positive control: deletions from the per-input reverse index are recognised", token.NoPos, nCtl >= 1, "the deletion detector no longer sees the DeleteCleanupLast calls on indexedDependencies")
+	c.Floor(2)
+}
+
+// C16-R12: every subscriber gets its own copy of a batch. Derived collections rewrite the events they receive in place
+// (an Add of an input that has since disappeared becomes a Delete: manyCollection.onPrimaryInputEvent,
+// mergejoin.refreshEventsLocked) while slower subscribers of the same collection still have the batch queued. In
+// handlerSet.Distribute the slice handed to each listener is a copy made for that listener (a Clone / copy call inside
+// the loop), never the parameter itself or one value shared by all passes.
+func c16r12(c *Ctx) {
+	p := c.P
+	n := 0
+	for _, fn := range p.AllFuncs {
+		if funcPkgPath(fn) != istioMod+"/"+pkgKrt || fn.Name() != "Distribute" || fn.Signature.Recv() == nil || isWrapperFn(fn) || len(fn.Blocks) == 0 {
+			continue
+		}
+		recv := fn.Signature.Recv().Type().String()
+		if !strings.Contains(recv, "handlerSet") {
+			continue
+		}
+		headers := map[*ssa.BasicBlock]bool{}
+		for _, b := range fn.Blocks {
+			for _, pr := range b.Preds {
+				if b.Dominates(pr) {
+					headers[b] = true
+				}
+			}
+		}
+		eachInstr(fn, func(ins ssa.Instruction) {
+			call, ok := ins.(*ssa.Call)
+			if !ok {
+				return
+			}
+			o := calleeObj(call)
+			if o == nil || o.Name() != "send" {
+				return
+			}
+			// the slice argument
+			var arg ssa.Value
+			for _, a := range call.Call.Args {
+				if _, isSl := a.Type().Underlying().(*types.Slice); isSl {
+					arg = a
+				}
+			}
+			if arg == nil {
+				return
+			}
+			n++
+			fresh := false
+			if cp, isCall := arg.(*ssa.Call); isCall {
+				if co := calleeObj(cp); co != nil && (co.Name() == "Clone" || co.Name() == "Copy") {
+					// made in the same pass: inside a loop that contains the send
+					for h := range headers {
+						if h.Dominates(call.Block()) && h.Dominates(cp.Block()) && cp.Block() != h {
+							fresh = true
+						}
+					}
+				}
+				if bi, isB := cp.Call.Value.(*ssa.Builtin); isB && bi.Name() == "append" {
+					if k, isC := cp.Call.Args[0].(*ssa.Const); isC && k.IsNil() {
+						fresh = true // append([]T(nil), events...)
+					}
+				}
+			}
+			c.Check("each listener is sent its own copy of the batch: "+stableFnName(fn), call.Pos(), fresh,
+				"Distribute hands the same event slice to several listeners: derived collections rewrite a batch in place when they process it (an Add whose input has disappeared becomes a Delete), so a slower subscriber of the same collection reads rewritten events - a delete of a key it never saw added, or a dropped add - and the per-subscriber event stream is no longer a consistent history of the collection")
+		})
+	}
+	c.Check("handlerSet.Distribute sends to its listeners", token.NoPos, n >= 1, "no send call found in handlerSet.Distribute")
 	c.Floor(2)
 }
